@@ -436,22 +436,24 @@ Definition front_pad (size a : Z) : M Z :=
 Definition back_pad (a : Z) : M Z :=
   ee <- get emit_end ;; ret (u32 ee mod a).
 
-(* emit_front: the reference, 0 on failure *)
+(* emit_front: the reference, 0 on failure (range tested before the subtraction) *)
+Definition S32_MAX : Z := 2147483647.
+Definition S32_MIN : Z := -2147483648.
 Definition emit_front (kind : Z) (bytes : list Z) : M Z :=
   es <- get emit_start ;;
   let len := zlen bytes in
-  let ref := s32 (es - len) in
-  if ((16 <? len) && (U32_MAX <? len - 16)) || (es <=? ref) then ret 0
-  else ok <- emit_call ref kind bytes ;;
+  if (len =? 0) || (S32_MAX <? len) || (es - len <? S32_MIN) then ret 0
+  else let ref := es - len in
+       ok <- emit_call ref kind bytes ;;
        if ok then upd (set_emit_start ref) ;;; ret ref else ret 0.
 
-(* emit_back: reference + 1, 0 on failure; emit_end is advanced before the checks *)
+(* emit_back: reference + 1, 0 on failure; emit_end is advanced once the range test has passed *)
 Definition emit_back (kind : Z) (bytes : list Z) : M Z :=
   ref <- get emit_end ;;
-  let e' := s32 (ref + zlen bytes) in
-  upd (set_emit_end e') ;;;
-  if e' <? ref then ret 0
-  else ok <- emit_call ref kind bytes ;; if ok then ret (ref + 1) else ret 0.
+  let len := zlen bytes in
+  if (ref <? 0) || (S32_MAX - ref <? len) then ret 0
+  else upd (set_emit_end (ref + len)) ;;;
+       ok <- emit_call ref kind bytes ;; if ok then ret (ref + 1) else ret 0.
 
 (* align_buffer_end: (success, align) *)
 Definition align_buffer_end (a balign : Z) (is_nested : bool) : M (bool * Z) :=
